@@ -4,6 +4,14 @@ import json, os
 V = os.path.dirname(os.path.dirname(os.path.abspath(__file__)))
 
 CHECKS = {
+ "C14": dict(
+    technique="runtime oracle: reference-model closure/members/allowed-base-set/exact factors vs real systems and groups; reference tracker over edit histories; fresh-twin comparison after default_system changes",
+    text="Every canonical unit x every declared system (and none) is sent through get_base_units(system=) and to_base_units under that default system; the result must use only "
+         "the system's declared base units plus unreplaced root units, keep the model dimension and the exact model value (Fraction registry; 1e-9 for tainted systems) and be idempotent; "
+         "group/system members and every restricted compatible-unit query are compared with the model closure; ureg.sys.S.name variants; random histories of default_system changes "
+         "(all probes re-asked after each change, compared with a fresh twin) and group edits (tracker); generated group graphs and systems with 'new' and 'new:old' rules incl. multi-root new units.",
+    note="generated systems only use consistent substitutions (distinct new units, other roots not replaced); g.add_groups(g) self-use is not generated",
+    ref="4/C14"),
  "C08": dict(
     technique="runtime oracle: reading sets enumerated by an independent name model vs the real resolution API on the prefix x unit x plural cross product, fresh vs aged registries, hash-seed digest comparison",
     text="Every string p+u+s (72 prefix spellings + none, ~917 unit spellings, optional s; complete in thorough, stratified with all ambiguous and exact strings in quick) is "
